@@ -39,7 +39,7 @@ theorem C05Tsc_monotone_between_resyncs_extracted {sc : Int → Int} {ε : Int} 
       (o1.tsc ≤ o2.tsc → o1.value ≤ o2.value) ∧ (o2.tsc ≤ o1.tsc → o2.value ≤ o1.value)) := by
   rw [tsc_params_are_code]; exact C05Tsc_monotone_between_resyncs hs c ops
 
-/-- the F26 witnesses for the code as extracted -/
+/-- the F33 witnesses for the code as extracted -/
 theorem C05Tsc_backstep_witness_extracted :
     ((prun Extracted.tscParams sc1 { clock := wClock } wBackstep).written.map (fun e => (e.id, e.tsc, e.ts)))
       = [(1, 2002100, 1700000000001002100), (2, 2002150, 1700000000001001650)] := by
